@@ -40,6 +40,12 @@ fn run_replay(ctx: &Ctx, rep: &mut Report, prop: &str) -> bool {
     ctx.replay.is_some()
 }
 
+/// function names a standard library might claim
+const BUILTIN_LIKE_NAMES: [&str; 44] = [
+    "min", "max", "abs", "len", "length", "size", "str", "int", "bool", "input", "read", "write", "exit", "halt", "assert", "panic", "error", "random", "rand", "time", "clock", "typeof", "range", "println",
+    "printf", "format", "sum", "swap", "id", "not", "neg", "pow", "sqrt", "array_of", "new", "copy", "equals", "concat", "push", "pop", "get", "set", "add", "eq",
+];
+
 /// deterministic cases shared by C01: matrix, stress shapes, in-repo corpus; `third` = one in how
 /// many of the three-way combinations (construct in wrapper in context) to take (1 = all)
 fn deterministic_sources(third: u64, seed: u64) -> Vec<(String, String)> {
@@ -62,6 +68,36 @@ fn deterministic_sources(third: u64, seed: u64) -> Vec<(String, String)> {
     }
     for (n, s) in stress_sources() {
         v.push((format!("stress:{}", n), s));
+    }
+    for (a, b) in super::lang2::COLLIDING_NAMES.iter() {
+        v.push((format!("colliding-names:{}/{}", a, b), super::lang2::collision_program(a, b)));
+    }
+    // user definitions whose names a built-in might want: functions (called before and after their
+    // definition, 0 to 3 parameters), methods and variables - the program's own definition is the only one
+    let mut k4 = 0u64;
+    for w in BUILTIN_LIKE_NAMES.iter().chain(super::lang2::EXTRA_METHOD_NAMES.iter()) {
+        if ["this", "print"].contains(w) {
+            continue;
+        }
+        for arity in 0..4usize {
+            k4 += 1;
+            if third > 1 && (k4.wrapping_mul(0x9E37_79B9_7F4A_7C15).wrapping_add(seed) >> 24) % 2 != 0 {
+                continue;
+            }
+            let params: Vec<String> = (0..arity).map(|a| format!("p{}", a)).collect();
+            let args: Vec<String> = (0..arity).map(|a| (a * 4 + 3).to_string()).collect();
+            let body = if arity == 0 { "4100".to_string() } else { format!("4100 + {}", params.iter().enumerate().map(|(i, p)| format!("{} * {}", p, i + 2)).collect::<Vec<_>>().join(" + ")) };
+            v.push((
+                format!("builtin-like:{}/{}", w, arity),
+                format!(
+                    "print(\"before ~\\n\", {w}({a}));\nfunction caller() -> {w}({a});\nprint(\"~\\n\", caller());\nfunction {w}({p}) -> {b};\nprint(\"after ~ ~\\n\", {w}({a}), caller());\nlet o = object begin function {w}({p}) -> 1 + {b}; end;\nprint(\"method ~\\n\", o.{w}({a}));\nlet {w} = 77;\nprint(\"variable ~ ~\\n\", {w}, {w}({a}));\n",
+                    w = w,
+                    a = args.join(", "),
+                    p = params.join(", "),
+                    b = body
+                ),
+            ));
+        }
     }
     for p in corpus("fml") {
         if let Ok(s) = std::fs::read_to_string(&p) {
@@ -107,7 +143,7 @@ pub fn c01(ctx: &Ctx, rep: &mut Report) {
                 if k % 16 == 0 {
                     judge_cli(rep, "C01", &name, &src, &j.outcome, &dir, k);
                 }
-                rep.bump("c01-source", if name.starts_with("stress") { "stress" } else if name.starts_with("corpus") { "corpus" } else if name.matches('@').count() == 2 { "three-way matrix" } else { "matrix" });
+                rep.bump("c01-source", if name.starts_with("stress") { "stress" } else if name.starts_with("corpus") { "corpus" } else if name.matches('@').count() == 2 { "three-way matrix" } else if name.starts_with("builtin-like") { "built-in-like names" } else { "matrix" });
             }
             Err(e) => {
                 if name.starts_with("corpus") {
